@@ -33,7 +33,8 @@ def shaped(name, s, w, f, radix, sign, ni, nk, unwind=None, point_when_no_frac=F
     L.append("    let neg = %s;" % ("true" if sign == "-" else "false"))
     L.append("    let want = want_u64::<%s>(neg, n << %d, %du64);" % (inner, f, radix ** nk))
     L.append("    kani::cover!(want.overflow, \"W:overflow reachable\");" if (ni >= 3 or (s == "U" and sign == "-") or f == w) and radix == 10 else "    kani::cover!(true, \"W:reached\");")
-    L.append("    kani::cover!(!want.overflow && n != 0, \"W:non-zero literal in range\");" if not (s == "U" and sign == "-") else "    kani::cover!(n != 0, \"W:non-zero literal\");")
+    L.append("    kani::cover!(!want.overflow, \"W:literal in range\");")
+    L.append("    kani::cover!(n != 0, \"W:non-zero literal\");")
     sfx = RADIX_FN[radix]
     plain = "<L as core::str::FromStr>::from_str(s)" if radix == 10 else "L::from_str%s(s)" % sfx
     if forms == "all":
